@@ -1627,3 +1627,48 @@ package desync
 //@   prop C05
 //@   safety none
 //@   oncall WriteHeader: requires $arg0.Typeflag == 50 && $arg0.Name == n.Name && $arg0.Linkname == n.Target && $arg0.Uid == n.UID && $arg0.Gid == n.GID && $arg0.ModTime == n.MTime
+
+// ---------------------------------------------------------------------------------------------
+// C02: the chunker. $in/$rd (stubs) are the reader's byte sequence and the number of bytes taken.
+// Representation invariant: the buffer holds exactly the stream bytes from c.start up to the read
+// position, the hash state is reset between calls, 48 <= min <= avg <= max.
+
+//@ spec func bufOK(c *Chunker) bool = c.start + len(c.buf) == $rd && c.start >= 0 && \
+//@     (forall a int :: inrng(c.buf, a) ==> elem(c.buf, a) == $in[c.start + a - off(c.buf)])
+//@ spec func wfChunker(c *Chunker) bool = 48 <= c.min && c.min <= c.avg && c.avg <= c.max && c.max < 1<<40 && c.hIdx == 0 && c.hValue == 0 && $rd < 1<<62 && len(c.buf) <= 10*c.max && c.hDiscriminator > 0 && bufOK(c)
+
+//@ func (c *Chunker) fillBuffer
+//@   prop C02
+//@   requires wfChunker(c)
+//@   modifies c.buf, c.hitEOF, allmem(uint8), $rd
+//@   ensures wfChunker(c) && c.start == old(c.start) && len(c.buf) >= old(len(c.buf)) && len(c.buf) <= 10*c.max
+//@   ensures err == nil && !c.hitEOF && !old(c.hitEOF) ==> len(c.buf) == 10*c.max
+//@   ensures old(c.hitEOF) ==> c.buf == old(c.buf) && c.hitEOF
+//@   ensures n == len(c.buf) || old(c.hitEOF)
+//@   ensures old(c.hitEOF) ==> err == nil && n == 0
+//@   loop 1: invariant len(buf) == 10*c.max && off(buf) == 0 && old(len(c.buf)) <= n && n <= len(buf) && c.start + n == $rd && $rd < 1<<62 && c.buf == old(c.buf) && c.start == old(c.start)
+//@   loop 1: invariant forall a int :: 0 <= a && a < n ==> elem(buf, a) == $in[c.start + a]
+
+//@ func (c *Chunker) split
+//@   prop C02
+//@   requires 0 <= i && i <= len(c.buf) && c.start + len(c.buf) == $rd && c.start >= 0 && $rd < 1<<62
+//@   requires forall a int :: inrng(c.buf, a) ==> elem(c.buf, a) == $in[c.start + a - off(c.buf)]
+//@   modifies c.buf, c.start, c.hIdx, c.hValue
+//@   ensures r0 == old(c.start) && r1 == old(c.buf[:i]) && r2 == err && c.start == old(c.start) + i && len(c.buf) == old(len(c.buf)) - i
+//@   ensures c.hIdx == 0 && c.hValue == 0 && bufOK(c)
+//@   ensures forall a int :: inrng(r1, a) ==> elem(r1, a) == $in[r0 + a - off(r1)]
+
+//# Next: the chunk is the next piece of the stream (tiling: it starts where the previous one ended, its bytes
+//# are the stream's bytes at that position, the chunker moves on by its length), no chunk is longer than max,
+//# and a chunk shorter than min is only ever the last one (the reader had hit EOF and the buffer is empty after it).
+//@ func (c *Chunker) Next
+//@   prop C02
+//@   requires wfChunker(c) && len(hashTable) == 256
+//@   modifies c.buf, c.hitEOF, c.start, c.hIdx, c.hValue, c.hWindow, allmem(uint8), $rd
+//@   ensures r0 == old(c.start) && c.start == r0 + len(r1)
+//@   ensures forall a int :: inrng(r1, a) ==> elem(r1, a) == $in[r0 + a - off(r1)]
+//@   ensures r2 == nil ==> wfChunker(c)
+//@   ensures r2 == nil ==> len(r1) <= c.max
+//@   ensures r2 == nil && len(r1) < c.min ==> c.hitEOF && len(c.buf) == 0
+//@   loop 1: invariant 0 <= $i && $i <= 48
+//@   loop 2: invariant c.min <= pos && pos < m && m <= len(c.buf) && 0 <= c.hIdx && c.hIdx < 48
